@@ -383,13 +383,45 @@ Fixpoint nat_list_eqb (a b : list nat) : bool :=
     (size, idle ids top first, down).  The execution ran to quiescence: nobody is left inside
     Acquire. *)
 Inductive case :=
-| PoolTrace (c : Z) (m : nat) (cl : bool) (ts : list tstep) (fsize : Z) (fidle : list nat) (fdown : bool).
+| PoolTrace (c : Z) (m : nat) (cl : bool) (ts : list tstep) (fsize : Z) (fidle : list nat) (fdown : bool)
+| PoolEnc (c : Z) (m : nat) (cl : bool) (ds : list N) (fsize : Z) (fidle : list nat) (fdown : bool).
+
+(** compact encoding of a step as one number (cheap to parse): kind (4 bits), a (12), b (10), flag (1),
+    size + 33 or 0 (7), returned wire (10); wires: 0 none, 1 DeadMade, 2 DeadDown, 3 CtxDead, 4 + id Real id *)
+Definition dec_wire (x : N) : option wire :=
+  match x with
+  | 0%N => None | 1%N => Some DeadMade | 2%N => Some DeadDown | 3%N => Some CtxDead
+  | _ => Some (Real (N.to_nat (x - 4)))
+  end.
+
+Definition dec_label (kind a b : nat) (flag : bool) : label :=
+  match kind with
+  | 0 => AcqEnter a flag | 1 => AcqPark a | 2 => AcqWake a
+  | 3 => MakeOk a (match b with O => None | S i => Some i end) flag
+  | 4 => MakeBad a (Nat.pred b) | 5 => AcqReturn a | 6 => CtxCancel a | 7 => Bcast a
+  | 8 => Store (match dec_wire (N.of_nat b) with Some w => w | None => CtxDead end)
+  | 9 => Signal (match a with O => None | _ => Some a end)
+  | 10 => CloseCS flag | 11 => CloseBcast | 12 => IdleCleanup
+  | 13 => WBreak (Nat.pred b) | _ => WExpire (Nat.pred b)
+  end%nat.
+
+Definition dec_step (x : N) : tstep :=
+  let sz := ((x / 134217728) mod 128)%N in
+  {| t_label := dec_label (N.to_nat (x mod 16)) (N.to_nat ((x / 16) mod 4096)) (N.to_nat ((x / 65536) mod 1024))
+                  (N.eqb ((x / 67108864) mod 2) 1);
+     t_size := if N.eqb sz 0 then None else Some (Z.of_N sz - 33);
+     t_got := dec_wire ((x / 17179869184) mod 1024) |}.
 
 Definition quiescent (s : state) : bool :=
   is_nil (parked s) && is_nil (woken s) && is_nil (making s) && mutex_free s.
 
 Definition check_case (c : case) : bool :=
   match c with
+  | PoolEnc cp m cl ds fsize fidle fdown =>
+      match replay (fixed_cfg cp m cl) (map dec_step ds) init with
+      | Some s => (size s =? fsize) && nat_list_eqb (idle s) fidle && Bool.eqb (down s) fdown && quiescent s
+      | None => false
+      end
   | PoolTrace cp m cl ts fsize fidle fdown =>
       match replay (fixed_cfg cp m cl) ts init with
       | Some s => (size s =? fsize) && nat_list_eqb (idle s) fidle && Bool.eqb (down s) fdown && quiescent s
